@@ -20,4 +20,4 @@ CONSTANTS
   NarrowSels <- NoNarrow
   KeyFam <- Fam
 INVARIANTS Inv_C02 Inv_C03 Inv_C08 Inv_C08why Inv_C09 EmitScenario
-CHECK_DEADLOCK FALSE
+CHECK_DEADLOCK TRUE
